@@ -15,12 +15,12 @@ PROP = 'C07'
 
 def run(tier):
     rep = core.Report(PROP, tier, 'model_checking',
-        'every key length 0..3 blocks+1 x message lengths {0,1,B-1,B,B+1,2B} x {one update, one-byte updates, 0|B-1|0|rest} '
+        'every key length 0..3 blocks+1 x message lengths {0,1,B-1,B,B+1,2B} x {one update, one-byte updates (m<=B+1), 0|B-1|0|rest} '
         'and the three one-shot entry points, for all 8 hash variants and every forced block transform of every build; '
         'partition-confluence exploration of hmac_*_update (states = canonical HMAC contexts (algorithm, transform, key length, '
-        'absorbed n = 0..2B); transitions = every update(next c bytes at alignment a) and every final, each with dead context '
-        'bytes 0x00 and 0xA5) for the boundary key lengths (quick: 6 of them, 3 alignments; thorough: 9, 7 alignments; in the '
-        'all-transforms build every key length).  A case is non-trivial when every MAC in it equalled the reference and the pads were wiped')
+        'absorbed n); transitions = every update(next c bytes at alignment a) and every final, with dead context bytes 0x00 / 0xA5) '
+        'for key lengths {0,B,3B+1} with n<=B+2 (quick), the nine boundary key lengths with n<=2B (thorough, every build) and every '
+        'key length in the all-transforms build.  A case is non-trivial when every MAC in it equalled the reference and the pads were wiped')
     rep.assumptions = [
         'Python hmac/hashlib is the reference for HMAC-MD5/SHA-1/SHA-2',
         'HMAC-Streebog reference = RFC 2104 written out over harness/C04/ref_streebog.c (tables parsed as data from liblcb\'s header, '
